@@ -21,6 +21,7 @@ RULE = (
     ' Also: a MAPPED if/else graph whose items take different branches, wrapper outputs renamed by 1-3 batches, compared with the un-renamed wrapper under the forward map.'
     ' Also: the mapped work list bound on the inner graph (caller leaves it alone) with the renames applied before and after map_over.'
     ' Directed: constructor renames (rename_inputs=) that map a parameter onto the name of another parameter must be refused as with_inputs() refuses them, or honoured (function nodes, both gate kinds, interrupts).'
+    ' Directed: emit outputs renamed (plain, chained, swapped with the data output) on function nodes, gates and interrupts, with a waiter on the new name; the mapped-node clone list followed under BOTH runners.'
 )
 ASSUMPTIONS = [
     "each parameter carries a distinct annotation and default so that a mix-up between parameters is visible",
@@ -423,26 +424,31 @@ def map_follow(ctx, base, meta, in_hist, case):
     provided[fm[others[0]]] = cloned_obj
     if not inner_bound:
         provided[fm["a"]] = list(items)
-    rt.new_rec()
-    try:
-        res = SyncRunner().run(g, provided)
-    except Exception as e:  # noqa: BLE001
-        ctx.violation("C06:map-run-raised:" + type(e).__name__, f"running the mapped, renamed nested-graph node raised {e!r} (history {in_hist})", case)
-        return
-    ctx.obs["map_follow_runs"] += 1
-    calls = rt.CUR.invocations().get(meta["fids"][0], [])
-    got = [c.get("a") for c in calls]
-    if got != ["item0", "item1", "item2"]:
-        ctx.violation("C06:map-items", f"inner parameter a received {got} over the mapped runs, expected one item each (history {in_hist})", case)
-        return
-    # the clone list follows the renames too: the parameter listed in clone=[...] is deep-copied per item, under
-    # whatever external name it goes by now (also when that name is one the mapped parameter used to have)
-    consumer = next((f for f in meta["fids"] if any(others[0] in c for c in rt.CUR.invocations().get(f, []))), None)
-    if consumer is not None:
-        objs = [c[others[0]] for c in rt.CUR.invocations()[consumer]]
-        ctx.obs["clone_follow_checked"] += 1
-        if any(o is cloned_obj for o in objs) or len({id(o) for o in objs}) != len(objs) or any(o != cloned_obj for o in objs):
-            ctx.violation("C06:clone-not-followed", f"clone=[{others[0]!r}] before history {in_hist}: the items received {'the caller\'s own object' if any(o is cloned_obj for o in objs) else 'shared/altered copies'} for that parameter (now called {fm[others[0]]!r})", case)
+    import asyncio
+
+    from hypergraph import AsyncRunner
+
+    for runner_kind in ("sync", "async"):
+        rt.new_rec()
+        try:
+            res = SyncRunner().run(g, provided) if runner_kind == "sync" else asyncio.run(AsyncRunner().run(g, provided))
+        except Exception as e:  # noqa: BLE001
+            ctx.violation("C06:map-run-raised:" + type(e).__name__, f"{runner_kind}: running the mapped, renamed nested-graph node raised {e!r} (history {in_hist})", case)
+            return
+        ctx.obs["map_follow_runs"] += 1
+        calls = rt.CUR.invocations().get(meta["fids"][0], [])
+        got = [c.get("a") for c in calls]
+        if got != ["item0", "item1", "item2"]:
+            ctx.violation("C06:map-items", f"{runner_kind}: inner parameter a received {got} over the mapped runs, expected one item each (history {in_hist})", case)
+            return
+        # the clone list follows the renames too: the parameter listed in clone=[...] is deep-copied per item, under
+        # whatever external name it goes by now (also when that name is one the mapped parameter used to have)
+        consumer = next((f for f in meta["fids"] if any(others[0] in c for c in rt.CUR.invocations().get(f, []))), None)
+        if consumer is not None:
+            objs = [c[others[0]] for c in rt.CUR.invocations()[consumer]]
+            ctx.obs["clone_follow_checked"] += 1
+            if any(o is cloned_obj for o in objs) or len({id(o) for o in objs}) != len(objs) or any(o != cloned_obj for o in objs):
+                ctx.violation("C06:clone-not-followed", f"{runner_kind}: clone=[{others[0]!r}] before history {in_hist}: the items received {'the caller\'s own object' if any(o is cloned_obj for o in objs) else 'shared/altered copies'} for that parameter (now called {fm[others[0]]!r})", case)
 
 
 def cached_rename_history(ctx, i):
@@ -631,6 +637,87 @@ def constructor_collisions(ctx):
     ctx.case({"directed": "constructor-collisions"}, True)
 
 
+def renamed_emit_outputs(ctx):
+    """An ordering signal declared with emit= is an output like any other: renamed with with_outputs() (plain, through a
+    temporary name, or swapped with the node's data output), the run publishes it under the NEW name - a node waiting
+    for the new name runs (once, after the emitter), and the data value arrives under the data output's new name.
+    Function nodes, both gate kinds and interrupts; both runners."""
+    import asyncio
+
+    from hypergraph import AsyncRunner, FunctionNode, Graph, IfElseNode, InterruptNode, RouteNode, SyncRunner
+    from hypergraph.nodes.base import _EMIT_SENTINEL
+
+    log = []
+
+    def work(x):
+        log.append("emitter")
+        return ("val", x)
+
+    def decide(x):
+        log.append("emitter")
+        return "tgt"
+
+    def decide_b(x):
+        log.append("emitter")
+        return True
+
+    def tgt_f(x):
+        return ("tgt", x)
+
+    def waiter_f(x):
+        log.append("waiter")
+        return ("waited", x)
+
+    histories = {"plain": [{"sig": "sig2"}], "chain": [{"sig": "tmp"}, {"tmp": "sig2"}], "swap": [{"val": "sig", "sig": "val"}]}
+    for kind in ("fn", "route", "ifelse", "int"):
+        for hname, hist in histories.items():
+            if hname == "swap" and kind in ("route", "ifelse"):
+                continue  # gates have no data output to swap with
+            if kind == "fn":
+                nd = FunctionNode(work, name="em", output_name="val", emit="sig")
+            elif kind == "int":
+                nd = InterruptNode(work, name="em", output_name="val", emit="sig")
+            elif kind == "route":
+                nd = RouteNode(decide, targets=["tgt"], name="em", emit="sig")
+            else:
+                nd = IfElseNode(decide_b, when_true="tgt", when_false="other", name="em", emit="sig")
+            try:
+                for b in hist:
+                    nd = nd.with_outputs(dict(b))
+            except Exception as e:  # noqa: BLE001
+                ctx.violation("C06:rename-raised", f"{kind}: with_outputs history {hist} on a node with emit='sig' raised {e!r}", {"program": f"{kind} emitter", "history": hist})
+                continue
+            new_sig = "val" if hname == "swap" else "sig2"
+            new_val = "sig" if hname == "swap" else "val"
+            extra = []
+            if kind in ("route", "ifelse"):
+                extra = [FunctionNode(tgt_f, name="tgt", output_name="t_out")] + ([FunctionNode(tgt_f, name="other", output_name="o_out")] if kind == "ifelse" else [])
+            waiter = FunctionNode(waiter_f, name="waiter", output_name="w", wait_for=new_sig)
+            case = {"program": f"{kind} node with emit='sig', outputs renamed by {hist}, waiter on {new_sig!r}", "outputs": list(nd.outputs)}
+            try:
+                g = Graph([waiter, nd, *extra], name="rem")
+            except Exception as e:  # noqa: BLE001
+                ctx.violation("C06:renamed-emit:graph-rejected", f"{case['program']}: the graph was rejected: {e!r}", case)
+                continue
+            for runner in ("sync", "async"):
+                if kind == "int" and runner == "sync":
+                    continue
+                log.clear()
+                try:
+                    r = SyncRunner().run(g, {"x": 1}) if runner == "sync" else asyncio.run(AsyncRunner().run(g, {"x": 1}))
+                except Exception as e:  # noqa: BLE001
+                    ctx.violation("C06:renamed-emit:raised", f"{runner}: {case['program']}: {e!r}", case)
+                    continue
+                ctx.obs["renamed_emit_runs"] += 1
+                if log != ["emitter", "waiter"]:
+                    ctx.violation("C06:renamed-emit:waiter", f"{runner}: {case['program']}: executions {log}; the waiter runs once, after the emitter", case)
+                elif kind in ("fn", "int") and r.values.get(new_val) != ("val", 1):
+                    ctx.violation("C06:renamed-emit:data-value", f"{runner}: {case['program']}: the data output (now {new_val!r}) is {r.values.get(new_val)!r}", case)
+                elif any(v is _EMIT_SENTINEL for v in r.values.values()):
+                    ctx.violation("C06:renamed-emit:sentinel-returned", f"{runner}: {case['program']}: the ordering sentinel is among the returned values {sorted(r.values)}", case)
+    ctx.case({"directed": "renamed-emit-outputs"}, True)
+
+
 def run(ctx):
     n = 130 if ctx.tier == "quick" else 5500
     if ctx.replay:
@@ -638,6 +725,7 @@ def run(ctx):
         return
     if ctx.shard[0] == 0:
         constructor_collisions(ctx)
+        renamed_emit_outputs(ctx)
     for i in range(n):
         for kind in ("fn", "ifelse", "route", "int", "graph", "graph"):
             one_history(ctx, kind, i)
